@@ -139,7 +139,7 @@ func VerifC16Deploy() {
 	d := &PackageDeployer{
 		client: verifk8s.NewClient(), uncachedClient: uc, scheme: vScheme(),
 		newObjectDeployment: adapters.NewObjectDeployment, structuralLoader: loader, deploymentReconciler: rec,
-		packageValidators: packagevalidation.PackageValidatorList{}, 
+		packageValidators: packagevalidation.PackageValidatorList{},
 	}
 	err := d.Deploy(context.Background(), apiPkg, &packagetypes.RawPackage{}, env)
 
